@@ -1273,6 +1273,9 @@ func (pr *Prover) NonNil(v ssa.Value, at *ssa.BasicBlock, depth int) bool {
 			if fv, ok := x.X.(*ssa.FreeVar); ok && pr.p.freeCellNonNil(fv) {
 				return true
 			}
+			if gl, ok := x.X.(*ssa.Global); ok && pr.p.nonNilGlobalValue(gl) {
+				return true // assigned once, in init, from fmt.Errorf / errors.New
+			}
 			if fa, ok := x.X.(*ssa.FieldAddr); ok && len(pr.fieldNN) > 0 {
 				if _, isRecv := recvBase(pr.p, pr.fn, fa.X); isRecv && pr.fieldNN[fieldNeedKey(fa)] {
 					return true
@@ -1958,12 +1961,25 @@ func (pr *Prover) postFacts(b *ssa.BasicBlock) []Lin {
 				continue
 			}
 			al, ok := call.Call.Args[0].(*ssa.Alloc)
-			if !ok || pr.verAt == nil {
+			if !ok {
 				continue
 			}
-			// the receiver must still hold its zero value: no store to it before the call
-			cls := classOf(al)
-			if v := pr.verAt(call, cls); v != "entry" {
+			// the receiver must still hold its zero value at the call: the
+			// variable is used by this call and by loads only, and the call
+			// is not inside a loop
+			zero := loopContaining(pr.fn, blk) == nil
+			for _, r := range *al.Referrers() {
+				switch x := r.(type) {
+				case *ssa.UnOp, *ssa.DebugRef:
+				case *ssa.Call:
+					if x != call {
+						zero = false
+					}
+				default:
+					zero = false
+				}
+			}
+			if !zero {
 				continue
 			}
 			after := fmt.Sprintf("len(*(%s)@b%d.%d)", pr.key(al), blk.Index, idx)
